@@ -48,3 +48,8 @@ CHECKS["C11"] = (
  "7*10^5 (quick) / 1.8*10^7 (thorough) cases: generated well-formed documents are compared token by token (type, bytes, Text(), AttrVal()) with the abstract document they were spelled from and with encoding/xml for element names, attribute names and entity-free values; on hostile byte strings Attribute tokens must lie between a start tag and its closer, io.EOF may only be reported at Offset()==Len(), and an input containing NUL must end in an error. Held on what was observed.",
  "Generator restricted to the XML subset named in the property (see evidence assumptions); encoding/xml is trusted as the conforming reader.",
  "DESIGN.md §4 C11")
+CHECKS["C09"] = (
+ "construction-time ground truth from a document generator compared token by token, attribute-placement trace automaton on hostile bytes (runtime monitoring)",
+ "6*10^5 (quick) / 1.6*10^7 (thorough) cases: generated documents of well-formed HTML constructs (all attribute syntaxes, void/end tags, six raw-text elements with look-alike end tags and script double-escape, plaintext, svg/math) in random case and whitespace, half with one of the six template dialects, are lexed and every token is compared (type, exact bytes, Text/AttrKey, AttrVal, HasTemplate) with the abstract document; on hostile bytes Attribute tokens must lie between a start tag and its closer. Held on what was observed; three recorded known findings about svg/math content are probed individually.",
+ "Random svg/math content avoids the three shapes recorded in known_findings.jsonl; template regions are placed at the positions the unit tests document.",
+ "DESIGN.md §4 C09")
